@@ -68,6 +68,71 @@ func VerifRateBand() {
 	}
 }
 
+// VerifRateBandLegacy: the closed-era band rules, whose constants (0.1, 0.01, 0.001) are not
+// dyadic: float64 products are ROUNDED. The engine follows IEEE round-to-nearest-even exactly
+// (a fork per binade of the exact product), so the band is decided bit for bit.
+//   era 0: [2.0, dev-rewards)  GetAssetRatesV0: 1 % band, 0.1 % when the staking rate >= 100000; outside => error
+//   era 1: [dev-rewards, 2.0.2) GetAssetRates: 10 % band; outside => error
+// Specification = the documented formula  spr*(1-t) <= opr <= spr*(1+t)  evaluated in float64
+// with the era's t (this IS the rule recorded consensus followed), cross-checked against the
+// exact rational band everywhere except within one base unit of its two edges.
+func VerifRateBandLegacy() {
+	vrt.Mode("fp", 1)
+	d := new(Pegnetd)
+	era := vrt.Param("era", 0)
+	bits := uint(vrt.Param("ratebits", 50))
+	ov := vrt.URange("opr", 0, 1<<bits)
+	sv := vrt.URange("spr", 0, 1<<bits)
+	// a second asset that is always inside its band, listed first
+	o := []opr.AssetUint{{Name: "PEG", Value: 7}, {Name: "USD", Value: ov}}
+	s := []opr.AssetUint{{Name: "PEG", Value: 7}, {Name: "USD", Value: sv}}
+	var out []opr.AssetUint
+	var err error
+	var t float64
+	var num, den uint64 // t = num/den exactly
+	if era == 0 {
+		out, err = d.GetAssetRatesV0(o, s)
+		t, num, den = 0.01, 1, 100
+		if sv >= 100000 {
+			t, num, den = 0.001, 1, 1000
+		}
+	} else {
+		height := uint32(vrt.Range("height", int64(specV20Dev), int64(specV202)-1))
+		out, err = d.GetAssetRates(o, s, height)
+		t, num, den = 0.1, 1, 10
+	}
+	hi := float64(sv) * (1 + t)
+	lo := float64(sv) * (1 - t)
+	inside := vrt.AndB(float64(ov) >= lo, float64(ov) <= hi)
+	// exact rational band: (den-num)*spr <= den*opr <= (den+num)*spr
+	od := new(big.Int).Mul(new(big.Int).SetUint64(den), new(big.Int).SetUint64(ov))
+	l := new(big.Int).Mul(new(big.Int).SetUint64(den-num), new(big.Int).SetUint64(sv))
+	h := new(big.Int).Mul(new(big.Int).SetUint64(den+num), new(big.Int).SetUint64(sv))
+	// ... compared one whole base unit away from the edges: below 2^50 the rounding of the
+	// constant and of the product moves the float threshold by less than one unit
+	dd := new(big.Int).SetUint64(den)
+	strictlyIn := vrt.AndB(od.Cmp(new(big.Int).Add(l, dd)) >= 0, od.Cmp(new(big.Int).Sub(h, dd)) <= 0)
+	strictlyOut := vrt.OrB(od.Cmp(new(big.Int).Sub(l, dd)) <= 0, od.Cmp(new(big.Int).Add(h, dd)) >= 0)
+	vrt.Assert("C12.legacy-float-band-is-the-exact-band-up-to-one-unit-at-its-edges",
+		vrt.AndB(vrt.OrB(vrt.NotB(strictlyIn), inside), vrt.OrB(vrt.NotB(strictlyOut), vrt.NotB(inside))))
+	if inside {
+		vrt.Cover("inside")
+		if float64(ov) == hi {
+			vrt.Cover("edge-high")
+		}
+		if float64(ov) == lo {
+			vrt.Cover("edge-low")
+		}
+		vrt.Assert("C12.legacy-inside-band-records-the-opr-rates", err == nil && len(out) == 2)
+		if err == nil && len(out) == 2 {
+			vrt.Assert("C12.legacy-inside-band-records-the-opr-rates", out[0].Name == "PEG" && out[0].Value == 7 && out[1].Name == "USD" && out[1].Value == ov)
+		}
+	} else {
+		vrt.Cover("outside")
+		vrt.Assert("C12.legacy-outside-band-refuses-the-rates", err != nil && out == nil)
+	}
+}
+
 func VerifInsertRates() {
 	d, db := vrtNode(false)
 	_ = d
